@@ -16,27 +16,30 @@ def ValidPerm (p : List Int) (n : Nat) : Prop := isPerm p n = true
     Kernel-evaluated over all 154 permutations. -/
 theorem unsafePermute_range (n : Nat) (hn : n ≤ 5) (p : List Int) (hp : ValidPerm p n) :
     unsafePermute p (rangeI n) = .ok (if (isMonotonicInts p).1 && (isMonotonicInts p).2 then PermRes.noop else PermRes.ok p) := by
-  sorry
+  exact unsafePermute_rangeI n hn p hp
 
 /-- Naturality: `UnsafePermute` moves positions, never looks at the values. -/
 theorem unsafePermute_map {α β} (f : α → β) (p : List Int) (xs : List α) :
     unsafePermute p (xs.map f) =
       (unsafePermute p xs).map (fun r => match r with | .ok ys => PermRes.ok (ys.map f) | .noop => PermRes.noop) := by
-  sorry
+  rw [unsafePermute_map' f p xs]
+  cases unsafePermute p xs with
+  | error e => rfl
+  | ok r => cases r <;> rfl
 
 /-- Hence for any list of length ≤ 5 (shape or strides; dimensions are unbounded) `UnsafePermute`
     is the gather by the pattern. -/
 theorem unsafePermute_gather (p : List Int) (xs : List Int) (hn : xs.length ≤ 5) (hp : ValidPerm p xs.length)
     (hni : ¬ ((isMonotonicInts p).1 && (isMonotonicInts p).2) = true) :
     unsafePermute p xs = .ok (PermRes.ok (gather p xs)) := by
-  sorry
+  exact unsafePermute_getElem p xs hn hp hni
 
 /-- Gathering coordinates and strides by the same permutation preserves the offset: element
     `(c[p₀],…,c[pₖ])`-of-the-source is element `c` of the result. Any rank. -/
 theorem dot_gather (p : List Int) (n : Nat) (hp : ValidPerm p n) (c s : List Int)
     (hc : c.length = n) (hs : s.length = n) :
     dot (gather p c) (gather p s) = dot c s := by
-  sorry
+  exact dot_getElem_perm p n hp c s hc hs
 
 /-- `AP.T` on a non-vector, non-scalar-equivalent pattern of rank ≤ 5 with a valid non-identity
     permutation returns the gathered shape and strides and sets the transposed flag. -/
@@ -47,17 +50,17 @@ theorem apT_gather (ap : AP) (axes : List Int) (hr : ap.shape.length ≤ 5)
     (hni : ¬ ((isMonotonicInts axes).1 && (isMonotonicInts axes).2) = true) :
     ap.T axes = .ok (.ok { shape := gather axes ap.shape, strides := gather axes ap.strides, fin := true,
                            o := { ap.o with transposed := true } } axes) := by
-  sorry
+  exact apT_getElem ap axes hr hl hp hne hnse hnv hni
 
 /-- Undoing a lazy transpose restores the original tensor exactly (metadata and storage window). -/
 theorem UT_T (st : St) (t t' : Dense) (axes : List Int) (hold : t.old = none) (htw : t.tw = none)
     (h : Dense.T st t axes = .ok (st, t')) : t'.ut = t := by
-  sorry
+  exact denseT_ut st t t' axes hold htw h
 
 /-- A lazy transpose never touches storage. -/
 theorem T_pure (st st' : St) (t t' : Dense) (axes : List Int) (hold : t.old = none)
     (h : Dense.T st t axes = .ok (st', t')) : st' = st ∧ t'.win = t.win := by
-  sorry
+  exact denseT_pure st st' t t' axes hold h
 
 -- concrete instances (non-vacuity)
 example : ValidPerm [2, 0, 1] 3 := by unfold ValidPerm; decide
